@@ -1,9 +1,9 @@
 SPECIFICATION Spec
 CONSTANTS
-  Schemes = {"afcuni"}
+  Schemes = {"cmdsig"}
   MaxTamper = 2
   HashModel = "tuple"
   PLens = {0}
-  DataLens = {0}
+  DataLens = {1, 4096, 4097, 70000}
 INVARIANTS AcceptIffUnchanged IdAgreement NoBothEnds OnlyRightful Emit
 CHECK_DEADLOCK FALSE
